@@ -8,9 +8,6 @@ Ltac ssimpl :=
   cbn [time height slashed stake shares ssup modb fee treas nbal sbal rew undels last dels comp votes prev tsup] in *.
 
 (* ---------------------------------------------------------------- coin maps, pointwise *)
-Fixpoint csum (cs : coins) (d : Z) : Z :=
-  match cs with [] => 0 | c :: r => (if d =? fst c then snd c else 0) + csum r d end.
-
 Lemma cadds_val : forall cs m d, cadds m cs d = m d + csum cs d.
 Proof.
   unfold cadds. induction cs as [|c r IH]; intros m d; simpl.
@@ -67,13 +64,15 @@ Lemma delegate_fields : forall c who amts s s', delegate c who amts s = Ok s' ->
 Proof.
   intros c who amts s s' H. unfold delegate in H.
   destruct (0 <? slashed s) eqn:E1; [discriminate|].
+  destruct (coins_valid amts); cbn [negb] in H; [|discriminate].
   destruct (all_gte (nbal s who) amts); cbn [negb] in H; [|discriminate].
   destruct (check_tok c amts); cbn [bind] in H; try discriminate.
   destruct (existsb _ _); [discriminate|]. inversion H; subst; clear H. split; [lia|reflexivity].
 Qed.
 
 Lemma undelegate_fields : forall v c who amts s s', undelegate v c who amts s = Ok s' ->
-  exists pc, redeem_coins v s amts = Ok pc /\ all_gte (sbal s who) pc = true /\ all_gte (stake s) amts = true /\
+  exists pc, redeem_coins v s amts = Ok pc /\
+    (forall d, In d (c_dens c) -> csum pc d <= sbal s who d) /\ (forall d, In d (c_dens c) -> csum amts d <= stake s d) /\
   s' = mkSt (time s) (height s) (slashed s) (csubs (stake s) amts) (csubs (shares s) pc) (csubs (ssup s) pc)
             (modb s) (fee s) (treas s) (nbal s) (asubs (sbal s) who pc) (rew s)
             (undels s ++ [mkUndel (last s + 1) who (time s + c_unstake c) amts]) (last s + 1)
@@ -83,11 +82,20 @@ Lemma undelegate_fields : forall v c who amts s s', undelegate v c who amts s = 
 Proof.
   intros v c who amts s s' H. unfold undelegate in H. apply bind_ok in H. destruct H as (pc & R & H).
   exists pc. split; [exact R|].
-  destruct (existsb _ pc); [discriminate|].
-  destruct (all_gte (sbal s who) pc) eqn:E1; cbn [negb] in H; [|discriminate].
+  destruct (existsb (fun c0 => snd c0 <? 0) pc); [discriminate|].
+  destruct (existsb (fun d => sbal s who d <? csum pc d) (c_dens c)) eqn:E1; [discriminate|].
   destruct (all_gte (stake s) amts) eqn:E2; cbn [negb] in H; [|discriminate].
-  destruct (all_gte (shares s) pc); cbn [negb] in H; [|discriminate].
-  inversion H; subst; clear H. auto.
+  destruct (has_dup amts); [discriminate|].
+  destruct (existsb (fun d => (stake s d <? csum amts d) || (shares s d <? csum pc d)) (c_dens c)) eqn:E3; [discriminate|].
+  inversion H; subst; clear H.
+  split; [|split; [|reflexivity]].
+  - intros d D. destruct (csum pc d <=? sbal s who d) eqn:G; [lia|]. exfalso.
+    assert (X : existsb (fun d => sbal s who d <? csum pc d) (c_dens c) = true) by (apply existsb_exists; exists d; split; [exact D|lia]).
+    congruence.
+  - intros d D. destruct (csum amts d <=? stake s d) eqn:G; [lia|]. exfalso.
+    assert (X : existsb (fun d => (stake s d <? csum amts d) || (shares s d <? csum pc d)) (c_dens c) = true)
+      by (apply existsb_exists; exists d; split; [exact D|lia]).
+    congruence.
 Qed.
 
 Lemma delegate_inv_supply : forall c who amts s s', delegate c who amts s = Ok s' -> inv_supply s -> inv_supply s'.
@@ -131,6 +139,7 @@ Proof.
   induction l as [|u r IH]; intros s s' H I; simpl in H.
   - inversion H; subst; assumption.
   - destruct (negb (u_owner u =? who) || (time s <? u_expiry u)); [eauto|].
+    destruct (coins_valid (u_amt u)); cbn [negb] in H; [|discriminate].
     destruct (all_gte (modb s) (u_amt u)); cbn [negb] in H; [|discriminate].
     eapply IH; [exact H|]. apply P_pay. exact I.
 Qed.
@@ -150,13 +159,16 @@ Proof.
     + eapply P_frame; [|exact D]. framed.
     + destruct all; (eapply P_frame; [|exact I]; framed).
 Qed.
-Lemma autocompound_P : forall c l s s', autocompound c l s = Ok s' -> P s -> P s'.
+Lemma autocompound_P : forall c l s s', autocompound v c l s = Ok s' -> P s -> P s'.
 Proof.
   induction l as [|a r IH]; intros s s' H I; simpl in H.
   - inversion H; subst; assumption.
-  - apply bind_ok in H. destruct H as (s1 & H1 & H2). eapply IH; [exact H2|]. eapply autocompound_one_P; eauto.
+  - destruct (autocompound_one c a s) as [s1|e|e] eqn:H1.
+    + eapply IH; [exact H|]. eapply autocompound_one_P; eauto.
+    + destruct (v_compound_safe v); [eapply IH; eauto|discriminate].
+    + discriminate.
 Qed.
-Lemma increase_pool_rewards_P : forall c rw s s', increase_pool_rewards c rw s = Ok s' -> P s -> P s'.
+Lemma increase_pool_rewards_P : forall c rw s s', increase_pool_rewards v c rw s = Ok s' -> P s -> P s'.
 Proof.
   intros c rw s s' H I. unfold increase_pool_rewards in H. eapply autocompound_P; [exact H|].
   eapply P_frame; [|exact I]. framed.
@@ -166,7 +178,7 @@ Proof.
   intros c w vr s s' H. unfold pay_validator in H. destruct (cmap_is_zero _ _); [inversion H; apply frame_refl|].
   destruct (existsb _ _); [discriminate|]. inversion H; subst. framed.
 Qed.
-Lemma allocate_P : forall c infl s s', allocate c infl s = Ok s' -> P s -> P s'.
+Lemma allocate_P : forall c infl s s', allocate v c infl s = Ok s' -> P s -> P s'.
 Proof.
   intros c infl s s' H I. unfold allocate in H. destruct (c_snap c =? 0); [discriminate|].
   apply bind_ok in H. destruct H as (s2 & H2 & H). inversion H; subst s'; clear H.
@@ -205,6 +217,11 @@ Proof.
   - inversion H; subst. eapply P_frame; [|exact I]. framed.
   - inversion H; subst. eapply P_frame; [|exact I]. framed.
   - destruct possible; [eapply allocate_P; eauto | inversion H; subst; exact I].
+  - unfold rotate in H. destruct (_ <? recovery_fee); [discriminate|]. inversion H; subst.
+    eapply P_frame; [|exact I]. framed.
+  - unfold rotate_validator in H. destruct (_ <? recovery_fee); [discriminate|]. inversion H; subst.
+    eapply P_frame; [|exact I]. framed.
+  - inversion H; subst. exact I.
 Qed.
 
 (* predicates that do not look at the clock or the vote store survive the block steps as well *)
@@ -388,6 +405,7 @@ Proof.
   intros v who id s s' H. unfold claim in H. destruct (find_undel id (undels s)) as [u|] eqn:F; [|discriminate].
   destruct (time s <? u_expiry u) eqn:E1; [discriminate|].
   destruct (v_owner_check v && negb (u_owner u =? who)) eqn:E2; [discriminate|].
+  destruct (coins_valid (u_amt u)); cbn [negb] in H; [|discriminate].
   destruct (all_gte (modb s) (u_amt u)) eqn:E3; cbn [negb] in H; [|discriminate].
   inversion H; subst. exists u. split; [reflexivity|]. split; [lia|]. split; [|split; [exact E3|reflexivity]].
   intro O. rewrite O in E2. simpl in E2. lia.
@@ -483,9 +501,9 @@ Proof.
 Qed.
 
 (* ================================================================ 4. per-block allocation *)
-Theorem remainder_to_treasury : forall c infl s s', allocate c infl s = Ok s' -> forall d, treas s' d = fee s' d.
+Theorem remainder_to_treasury : forall v c infl s s', allocate v c infl s = Ok s' -> forall d, treas s' d = fee s' d.
 Proof.
-  intros c infl s s' H d. unfold allocate in H. destruct (c_snap c =? 0); [discriminate|].
+  intros v c infl s s' H d. unfold allocate in H. destruct (c_snap c =? 0); [discriminate|].
   apply bind_ok in H. destruct H as (s2 & _ & H). inversion H; subst. ssimpl. reflexivity.
 Qed.
 
@@ -511,11 +529,11 @@ Proof.
   split; congruence.
 Qed.
 
-Lemma allocate_clock_votes : forall c infl s s', allocate c infl s = Ok s' -> votes s' = votes s /\ height s' = height s.
+Lemma allocate_clock_votes : forall v c infl s s', allocate v c infl s = Ok s' -> votes s' = votes s /\ height s' = height s.
 Proof.
-  intros c infl s s' H.
+  intros v c infl s s' H.
   assert (K : clock_votes (votes s) (height s) s').
-  { eapply (allocate_P (clock_votes (votes s) (height s))); [ | | exact H | split; reflexivity].
+  { eapply (allocate_P v (clock_votes (votes s) (height s))); [ | | exact H | split; reflexivity].
     - intros s0 s1 (_ & _ & _ & _ & _ & _ & A & _ & _ & B & _) [X Y]. split; congruence.
     - intros c0 who amts a b H0 [X Y]. apply delegate_fields in H0. destruct H0 as [_ ->]. split; ssimpl; assumption. }
   exact K.
@@ -576,12 +594,12 @@ Proof. intros f l H. induction l; simpl; [reflexivity|]. rewrite H. assumption. 
 
 (* with NO vote of the previous proposer in the store the allocation credits nobody: no validator payment, no
    delegator reward record, no auto-compounded stake; fees + inflation are all left to the treasury *)
-Theorem nobody_credited_without_votes : forall c infl s s',
-  count_votes (prev s) (votes s) = 0 -> allocate c infl s = Ok s' ->
+Theorem nobody_credited_without_votes : forall v c infl s s',
+  count_votes (prev s) (votes s) = 0 -> allocate v c infl s = Ok s' ->
   nbal s' = nbal s /\ rew s' = rew s /\ stake s' = stake s /\
   (forall d, treas s' d = fee s d + (if d =? 0 then infl else 0)).
 Proof.
-  intros c infl s s' V H. unfold allocate in H. destruct (c_snap c =? 0) eqn:SN; [discriminate|].
+  intros v c infl s s' V H. unfold allocate in H. destruct (c_snap c =? 0) eqn:SN; [discriminate|].
   cbv zeta in H. rewrite V in H.
   assert (FC : forall d, fee_cut c s 0 d = 0) by (intro d; unfold fee_cut; rewrite Z.mul_0_r; apply Z.quot_0_l; lia).
   assert (VR : forall d, val_fee_reward c s 0 d = 0) by (intro d; unfold val_fee_reward; rewrite FC, dec_mul_round_0; reflexivity).
@@ -712,22 +730,25 @@ Proof.
     inversion H; subst s'. apply delegate_fields in D. destruct D as [_ ->]. ssimpl.
     rewrite asubs_val, aadds_val. destruct all; ssimpl; lia.
 Qed.
-Lemma autocompound_nbal : forall c l s s', autocompound c l s = Ok s' -> forall b d, nbal s' b d = nbal s b d.
+Lemma autocompound_nbal : forall v c l s s', autocompound v c l s = Ok s' -> forall b d, nbal s' b d = nbal s b d.
 Proof.
   induction l as [|a r IH]; intros s s' H b d; simpl in H.
   - inversion H; subst; reflexivity.
-  - apply bind_ok in H. destruct H as (s1 & H1 & H2). rewrite (IH _ _ H2), (autocompound_one_nbal _ _ _ _ H1). reflexivity.
+  - destruct (autocompound_one c a s) as [s1|e|e] eqn:H1.
+    + rewrite (IH _ _ H), (autocompound_one_nbal _ _ _ _ H1). reflexivity.
+    + destruct (v_compound_safe v); [exact (IH _ _ H b d)|discriminate].
+    + discriminate.
 Qed.
 
 (* full strength at the allocation: a previous proposer with a positive signing record in the store, and a fee cut
    worth at least one unit of validator share in some denom, is paid a POSITIVE amount in that denom *)
-Theorem signing_proposer_credited : forall c infl s s' d,
+Theorem signing_proposer_credited : forall v c infl s s' d,
   is_validator (prev s) = true -> In d (c_dens c) ->
   PREC <= fee_cut c s (count_votes (prev s) (votes s)) d * Z.min (c_vfs c) PREC ->
-  allocate c infl s = Ok s' ->
+  allocate v c infl s = Ok s' ->
   nbal s (val_acct (prev s)) d < nbal s' (val_acct (prev s)) d.
 Proof.
-  intros c infl s s' d IV Dd CUT H. unfold allocate in H. destruct (c_snap c =? 0); [discriminate|].
+  intros v c infl s s' d IV Dd CUT H. unfold allocate in H. destruct (c_snap c =? 0); [discriminate|].
   cbv zeta in H. rewrite IV in H. set (power := count_votes (prev s) (votes s)) in *.
   assert (VR : 1 <= val_fee_reward c s power d).
   { unfold val_fee_reward. rewrite dec_mul_round_eq. pose proof (chop_round_ge_1 _ CUT).
@@ -746,7 +767,7 @@ Proof.
     + unfold cadd. destruct (d =? 0); lia.
     + intros b e. destruct (cmap_is_zero _ _).
       * inversion H1; subst. ssimpl. reflexivity.
-      * unfold increase_pool_rewards in H1. rewrite (autocompound_nbal _ _ _ _ H1). ssimpl. reflexivity.
+      * unfold increase_pool_rewards in H1. rewrite (autocompound_nbal _ _ _ _ _ H1). ssimpl. reflexivity.
   - eapply PAY; [exact VR | | exact H2]. intros b e. ssimpl. reflexivity.
 Qed.
 
@@ -758,10 +779,11 @@ Definition demo_init : st :=
   mkSt 1700000000 10 0 czero czero czero czero czero czero
        (fun a _ => if a <? 6 then 1000000 else 0) (fun _ => czero) (fun _ => czero)
        [] 0 [] (fun _ => (false, [], 0)) [] 0 czero.
-Definition tree_r0 : variant := mkVariant false 0 false false 0 false false false.   (* the tree before 86992ce / c0fbb8a *)
-Definition tree_r1 : variant := mkVariant true 1 false false 0 false false false.    (* with the claim-owner and end-blocker repairs *)
-Definition tree_r2 : variant := mkVariant true 1 true true 1 false false false. (* + signers-only votes, "v<id>/" prefix, pro-rata redemption *)
-Definition tree_r3 : variant := mkVariant true 1 true true 1 false true true.   (* + slashing keeper by reference, empty-burn guard (27b0386): the tree now *)
+Definition tree_r0 : variant := mkVariant false 0 false false 0 false false false false.   (* the tree before 86992ce / c0fbb8a *)
+Definition tree_r1 : variant := mkVariant true 1 false false 0 false false false false.    (* with the claim-owner and end-blocker repairs *)
+Definition tree_r2 : variant := mkVariant true 1 true true 1 false false false false. (* + signers-only votes, "v<id>/" prefix, pro-rata redemption *)
+Definition tree_r3 : variant := mkVariant true 1 true true 1 false true true false.  (* + slashing keeper by reference, empty-burn guard (27b0386) *)
+Definition tree_r4 : variant := mkVariant true 1 true true 1 false true true true.   (* + auto-compounding on a cache context (a2421a4): the tree now *)
 
 (* two equal delegators, slash 1/2: the first one redeems the WHOLE remaining stake for HALF of his shares *)
 Definition slashed_pool (v : variant) : st :=
@@ -875,4 +897,19 @@ Proof. vm_compute. repeat split. Qed.
 Theorem unslashed_one_to_one_refuted_with_guard :
   let s := run tree_r3 demo_cfg [ODelegate 0 [(0, 100)]; ODelegate 1 [(0, 100)]; OSlash HALF; OSlash 0] demo_init in
   slashed s = 0 /\ stake s 0 = 100 /\ shares s 0 = 200.
+Proof. vm_compute. repeat split. Qed.
+
+(* a refused auto-compounding: the delegator compounds everything, the pool is slashed (Delegate refuses), the
+   validator has a signing record and fees arrive.  Before a2421a4 the allocation PANICS (inside BeginBlock); now the
+   compounding branch is discarded, the reward stays credited and nothing is staked *)
+Definition refused_compound_ops : list op :=
+  [ODelegate 0 [(0, 1000)]; OSetCompound 0 true []; OSlash HALF; OSetVotes [(0, 7); (0, 8); (0, 9); (0, 10)]; OFees [(0, 4000)]].
+Example refused_compound_panicked_before :
+  is_panic (step tree_r3 demo_cfg (OAllocate true 0) (run tree_r3 demo_cfg refused_compound_ops demo_init)) = true.
+Proof. vm_compute. reflexivity. Qed.
+Theorem refused_compound_keeps_rewards :
+  let s0 := run tree_r4 demo_cfg refused_compound_ops demo_init in
+  let s := run tree_r4 demo_cfg [OAllocate true 0] s0 in
+  is_ok (step tree_r4 demo_cfg (OAllocate true 0) s0) = true /\ rew s0 0 0 = 0 /\ 0 < rew s 0 0 /\ stake s 0 = stake s0 0 /\
+  0 < nbal s 100 0.
 Proof. vm_compute. repeat split. Qed.
